@@ -31,6 +31,22 @@ CHECKS = {
     text="The REAL iteration() of the on-policy (PPO with train replaced by a probe that returns the buffer it receives) and off-policy algorithms with E=2 is traced over an uninterpreted environment/policy; every lane of every output (carried env/policy state, step counts, observations, actions, rewards, dones, log-probs, values, returns, advantages; replay rows and positions) is shown equal (unsat / identical terms) to the single-environment collect_rollout run from (state[e], K_e) for some per-environment key K_e derived from the iteration key (distinct across lanes), and lane 0 is shown invariant under arbitrary changes of lane 1's state (2-safety). Every functional component of the 5 classic-control environments and 2 wrapper stacks traces without converting a traced value to a Python bool (eager = jit primitive sequence) and its vmapped jaxpr is lane-wise equal to the unbatched one (ODE integrator and PRNG samplers stubbed).",
     note="E=2, S=2, batch 2; env/policy arbitrary total functions; MuJoCo/G1 components under vmap and XLA numerics (jit vs eager rounding) outside the claim",
     ref="DESIGN.md §2 C12"),
+ "C02": dict(
+    text="Inductive step for the five classic-control environments with diffrax.diffeqsolve stubbed as an arbitrary finite flow: for every solver output y, observation(clip(y)) is a member of the declared observation space (FP32 for clamp components incl. NaN/inf, REAL with range-axiomatised sin/cos and an exact quotient encoding for angle wraps), at default limits and at symbolic limits under the configuration precondition; CartPole on step() itself; initial states and sampled actions are members (PRNG contract stubs); Clip/Rescale/Flatten observation wrappers map into their advertised spaces; reward/terminal/truncate/observation avals of all 19 built-in environments (5 classic, 11 MuJoCo, 3 G1) read from the IR; two independent traces of every component are identical with identical captured constants (no Python-side state).",
+    note="one inductive step (any solver output), not trajectories; MuJoCo/G1 trajectories, float overflow inside rewards, RescaleObservation over infinite boxes outside the claim",
+    ref="DESIGN.md §2 C02"),
+ "C14": dict(
+    text="contains of Box/Discrete/MultiDiscrete/MultiBinary and nested Dict/Tuple is traced with path forking on bool(tracer) and decided in FP32 (symbolic candidate incl. NaN/inf, symbolic Box bounds; candidate dtype/shape classes and structural classes enumerated) against the membership predicate of the statement; scalar-bool result avals from the IR; sample() (PRNG contracts, Discrete mask) and canonical() are members; flatten_sample has flat_size entries and is injective on members (2-safety); Box.__eq__ by path-forking trace; __eq__/__hash__ of Discrete, MultiDiscrete, MultiBinary, Tuple, Dict and nestings by CrossHair (z3-backed symbolic execution of the Python source) over symbolic sizes and arity.",
+    note="<=4 elements per leaf, nesting depth 2, arity <=3; Box.__hash__, the Gymnasium round trip and Dict key order run NumPy/Gymnasium C code on concrete values (CrossHair realises there): outside the claim; foreign-type rejection informational only",
+    ref="DESIGN.md §2 C14", tech="path-forking trace of the real contains/sample/canonical to jaxprs, FP32 (z3 FloatingPoint) symbolic execution vs membership oracle; CrossHair (z3) for pure-Python __eq__/__hash__; counterexamples replayed on the real classes"),
+ "C17": dict(
+    text="Classic control: dynamics (vector field), clip (limits), reward incl. the goal/terminal step, terminal and initial range of CartPole, MountainCar, ContinuousMountainCar, Acrobot are traced with symbolic constructor parameters (sin/cos uninterpreted and shared) and shown equal (unsat) to short reference models of the Gymnasium semantics, which are validated against the INSTALLED Gymnasium on every run; CartPole+Euler transition equals Gymnasium's step map. MuJoCo (11 envs): observation layout, reward, reward components, termination, transition (ctrl written before exactly frame_skip steps, t+dt) and reset consistency (every derived field read at reset equals forward kinematics of the reset qpos/qvel) with the physics replaced by uninterpreted functions of (qpos, qvel, ctrl) whose write-set is read from the IR of the real mjx.forward/step each run, compared with reference models of the v5 formulas validated against the installed gymnasium *-v5 classes.",
+    note="formulas are compared with the physics cancelled (MJX-vs-MuJoCo numerics, multi-step trajectories, Tsit5 vs Gymnasium integrators outside the claim); 3 listed known findings (cfrc_ext never written by MJX)",
+    ref="DESIGN.md §2 C17"),
+ "C20": dict(
+    text="randomize_* / randomize_model on the real G1 mjx.Model pytree with symbolic ranges and nominal values: every randomised entry within [nominal*lo, nominal*hi], every other of the 124 model leaves identical (the output leaf IS the input variable); initial() of the three tasks with physics stubbed: model in range, command/frequency in range (zero for standing tasks), derived kinematics equal forward kinematics of the FINAL qpos/qvel; gait phases with pi an interval-bounded symbol and fmod encoded exactly: range, increment 2*pi*f*dt, half-cycle offset inductive and initial; cubic Bezier foot height range/zero/peak (NRA); transition advances the phase exactly once with the state's own frequency.",
+    note="actual G1 model sizes; float rounding of fmod at the wrap point, negative frequencies, f*dt > 1/2, MJX physics outside the claim",
+    ref="DESIGN.md §2 C20"),
 }
 NOT_YET = {}
 NA = {"C18": "file-system I/O and NumPy serialisation of concrete buffers: nothing symbolic to execute (eqx.tree_serialise_leaves crosses into numpy.save, CrossHair realises every input at that boundary); 'fails loudly' is an exception-path property of equinox. See DESIGN.md §2 C18."}
